@@ -300,3 +300,35 @@ pub fn ulp32(x: f32) -> f64 {
 pub fn fmt_f32(x: f32) -> String {
     format!("{:e}[{:#010x}]", x, x.to_bits())
 }
+
+/// Greedy delta-debugging over an op list: repeatedly drop chunks (halves, quarters, ... single ops)
+/// while `still_fails` keeps returning true. Bounded by `max_tests` executions.
+pub fn shrink_ops<T: Clone>(ops: &[T], max_tests: usize, still_fails: impl Fn(&[T]) -> bool) -> Vec<T> {
+    let mut cur: Vec<T> = ops.to_vec();
+    let mut tests = 0usize;
+    let mut chunk = (cur.len() / 2).max(1);
+    while chunk >= 1 && tests < max_tests {
+        let mut i = 0usize;
+        let mut removed_any = false;
+        while i < cur.len() && tests < max_tests {
+            let end = (i + chunk).min(cur.len());
+            let mut cand = Vec::with_capacity(cur.len() - (end - i));
+            cand.extend_from_slice(&cur[..i]);
+            cand.extend_from_slice(&cur[end..]);
+            tests += 1;
+            if !cand.is_empty() && still_fails(&cand) {
+                cur = cand;
+                removed_any = true;
+            } else {
+                i = end;
+            }
+        }
+        if chunk == 1 && !removed_any {
+            break;
+        }
+        if !removed_any || chunk > 1 {
+            chunk = if chunk == 1 { 1 } else { chunk / 2 };
+        }
+    }
+    cur
+}
